@@ -535,7 +535,7 @@ def run(tier, seed):
         report(res, {"failures": fl, "steps": steps, "seed": None}, "replay", do_shrink=False)
         return res.finish()
     traces = phase_corpus(res)
-    n, length = (40, 22) if tier == "quick" else (700, 32)
+    n, length = (64, 24) if tier == "quick" else (700, 32)
     tr, nfail = phase_walks(res, [seed * 100000 + i for i in range(n)], length)
     traces += tr
     U.validate_trace(res, inv, traces, "trace")
